@@ -26,6 +26,7 @@ import (
 	"crypto/elliptic"
 	"errors"
 	"fmt"
+	"math/big"
 
 	"github.com/btcsuite/btcd/btcec"
 	"github.com/kardiachain/go-kardia/lib/common"
@@ -105,6 +106,13 @@ func S256() elliptic.Curve {
 // The public key should be in compressed (33 bytes) or uncompressed (65 bytes) format.
 // The signature should have the 64 byte [R || S] format.
 func VerifySignature(addr common.Address, hash, signature []byte) bool {
+	if len(signature) != SignatureLength {
+		return false
+	}
+	r, s := new(big.Int).SetBytes(signature[:32]), new(big.Int).SetBytes(signature[32:64])
+	if !ValidateSignatureValues(signature[64], r, s, true) {
+		return false
+	}
 	signPubKey, _ := SigToPub(hash, signature)
 	if signPubKey == nil {
 		return false
